@@ -191,8 +191,9 @@ class VOpt(V):
 
 
 class VTuple(V):
-    def __init__(self, items):
+    def __init__(self, items, names=None):
         self.items = list(items)
+        self.names = names  # field names of a namedtuple
 
     @property
     def kind(self):
@@ -208,7 +209,7 @@ class VTuple(V):
             n = len(i.leaves())
             out.append(i.rebuild(leaves[p : p + n]))
             p += n
-        return VTuple(out)
+        return VTuple(out, self.names)
 
     def __repr__(self):
         return "Tuple(" + ", ".join(map(repr, self.items)) + ")"
@@ -432,8 +433,20 @@ def dummy_like(v: V) -> V:
         elif s == STR:
             out.append(z3.StringVal(""))
         else:
-            out.append(z3.FreshConst(s, "dummy"))
+            out.append(z3.Const(f"dummy!{s}", s))  # one fixed element per sort
     return v.rebuild(out)
+
+
+def canonical(v: V) -> V:
+    """Optional values compare equal when both are None whatever their payload: functions over
+    them (ghosts) must not see the payload of a None."""
+    if isinstance(v, VOpt):
+        inner = canonical(v.val)
+        d = dummy_like(inner)
+        return VOpt(v.isnone, inner.rebuild([z3.If(v.isnone, dl, il) for dl, il in zip(d.leaves(), inner.leaves())]))
+    if isinstance(v, VTuple):
+        return VTuple([canonical(x) for x in v.items], getattr(v, "names", None))
+    return v
 
 
 def coerce(v: V, like: V) -> V:
